@@ -352,11 +352,11 @@ structure LeafN (ext : IExt) (D : Tok → Prop) (newline escape backticks autoli
     enabled rules' own tokens satisfy and that the nested parses hand on -/
 theorem imgChain_addsD (cls : QCls) (ext : IExt) (lx : LExt) {D : Tok → Prop}
     (text newline escape backticks strike emphasis link image autolink htmlInline entity fragJoin : Bool) (mn : Int)
-    (hL : LinkN ext lx D) (hI : ImageN ext lx D) (hF : LeafN ext D newline escape backticks autolink htmlInline entity)
+    (hT : ∀ lvl c, D (mkInlineTok "text" "" 0 lvl c "" "")) (hL : link = true → LinkN ext lx D) (hI : image = true → ImageN ext lx D)
+    (hF : LeafN ext D newline escape backticks autolink htmlInline entity)
     (hC : TokClosed D (emphTypes strike emphasis)) :
     ∀ d : Nat, ∀ r ∈ imgChain cls ext lx text newline escape backticks strike emphasis link image autolink htmlInline entity fragJoin mn d,
       IAdds4 D r := by
-  have hT := hL.text
   intro d
   induction d with
   | zero => intro r hr; simp [imgChain] at hr
@@ -387,12 +387,12 @@ theorem imgChain_addsD (cls : QCls) (ext : IExt) (lx : LExt) {D : Tok → Prop}
       · simp at hr; subst hr; exact iadds4_of _ _ (adds_emphasis hT cls) (silentTok_emphasis cls)
       · cases hr
     · split at hr
-      · simp at hr; subst hr
-        exact iadds4_link ext lx hL mn _ hok ih
+      · rename_i hlk; simp at hr; subst hr
+        exact iadds4_link ext lx (hL hlk) mn _ hok ih
       · cases hr
     · split at hr
-      · simp at hr; subst hr
-        refine iadds4_image ext lx hI mn _ hok ih _ ?_
+      · rename_i him; simp at hr; subst hr
+        refine iadds4_image ext lx (hI him) mn _ hok ih _ ?_
         intro c ts hp
         exact parse_toks4 strike emphasis hC _ hok ih fragJoin mn c ts hp
       · cases hr
@@ -412,13 +412,14 @@ theorem imgChain_addsD (cls : QCls) (ext : IExt) (lx : LExt) {D : Tok → Prop}
 /-- the tokens of a parse all satisfy such a predicate -/
 theorem imgParse_toksD (cls : QCls) (ext : IExt) (lx : LExt) {D : Tok → Prop}
     (text newline escape backticks strike emphasis link image autolink htmlInline entity fragJoin : Bool) (mn : Int)
-    (hL : LinkN ext lx D) (hI : ImageN ext lx D) (hF : LeafN ext D newline escape backticks autolink htmlInline entity)
+    (hT : ∀ lvl c, D (mkInlineTok "text" "" 0 lvl c "" "")) (hL : link = true → LinkN ext lx D) (hI : image = true → ImageN ext lx D)
+    (hF : LeafN ext D newline escape backticks autolink htmlInline entity)
     (hC : TokClosed D (emphTypes strike emphasis)) (d : Nat) (src : List Char) (ts : List Tok)
     (h : inlineParse (imgChain cls ext lx text newline escape backticks strike emphasis link image autolink htmlInline entity fragJoin mn d)
       (imgPost strike emphasis) fragJoin mn src = .ok ts) : ∀ t ∈ ts, D t :=
   parse_toks4 strike emphasis hC _
     (imgChain_ok4 cls ext lx text newline escape backticks strike emphasis link image autolink htmlInline entity fragJoin mn d)
-    (imgChain_addsD cls ext lx text newline escape backticks strike emphasis link image autolink htmlInline entity fragJoin mn hL hI hF hC d)
+    (imgChain_addsD cls ext lx text newline escape backticks strike emphasis link image autolink htmlInline entity fragJoin mn hT hL hI hF hC d)
     fragJoin mn src ts h
 
 theorem deepU_leafN (ext : IExt) (lx : LExt) (newline escape backticks autolink htmlInline entity : Bool) :
@@ -440,7 +441,7 @@ theorem image_sources (cls : QCls) (ext : IExt) (lx : LExt)
     (h : inlineParse (imgChain cls ext lx text newline escape backticks strike emphasis link image autolink htmlInline entity fragJoin mn d)
       (imgPost strike emphasis) fragJoin mn src = .ok ts) : ∀ t ∈ descList ts, UTok ext lx t :=
   deep_list ts (imgParse_toksD cls ext lx text newline escape backticks strike emphasis link image autolink htmlInline entity fragJoin mn
-    (deepU_linkN ext lx) (deepU_imageN ext lx) (deepU_leafN ext lx newline escape backticks autolink htmlInline entity)
+    (deepU_linkN ext lx).text (fun _ => deepU_linkN ext lx) (fun _ => deepU_imageN ext lx) (deepU_leafN ext lx newline escape backticks autolink htmlInline entity)
     (deep_closed (utok_closed ext lx strike emphasis)) d src ts h)
 
 /-- a destination that is empty or acceptable to a browser -/
